@@ -36,6 +36,15 @@ func vGenTree(r *rand.Rand, exact bool) []vTreeFile {
 			w[i] = vocab[vZipf(r, len(vocab))]
 		}
 		t, _ := vLayout(r, w, true)
+		switch r.Intn(6) {
+		case 0: // CRLF line endings with words hyphenated over line breaks
+			lines, _, _, _, _ := vTHyphen(r, strings.Split(t, "\n"))
+			t = strings.ReplaceAll(strings.Join(lines, "\n"), "\n", "\r\n")
+		case 1: // CRLF only
+			t = strings.ReplaceAll(t, "\n", "\r\n")
+		case 2: // BOM, tabs, trailing blanks, invalid bytes
+			t = "\xef\xbb\xbf" + strings.ReplaceAll(t, "\n", " \t\n") + "\xff\xfe tail\xe2\x80"
+		}
 		return t
 	}
 	names := []string{"License", "Header", "Supplement", "cat txt", "Käse", "a.b", "x", "footxt", "my-cat", "日本"}
